@@ -12,6 +12,7 @@ import (
 	"math"
 	"os"
 	"runtime"
+	"runtime/pprof"
 	"slices"
 	"strconv"
 	"strings"
@@ -242,6 +243,14 @@ func TestC18(t *testing.T) {
 		guard := &guardZ{inner: compression.ZStd()}
 		guarded := buildCodecs(guard, keyGood)
 
+		if path := os.Getenv("C18_CPUPROFILE"); path != "" { // debugging aid: vk exits the process, so the standard flag would not flush
+			if f, err := os.Create(path); err == nil {
+				_ = pprof.StartCPUProfile(f)
+
+				defer pprof.StopCPUProfile()
+			}
+		}
+
 		phases := map[string]float64{}
 		timed := func(name string, f func()) {
 			t0 := time.Now()
@@ -353,6 +362,13 @@ func roundTripCase(c *vk.C, i int, codecs []*codec, cnt counts) {
 	rng := c.Rand(uint64(1_000_000 + i))
 	g := newGen(rng)
 	gc := g.resource(sizeHuge, true)
+
+	t0 := time.Now()
+
+	defer func() {
+		cnt[fmt.Sprintf("dbg_ms_size_%d_kind_%s", gc.size, gc.kind)] += int(time.Since(t0).Milliseconds())
+		cnt[fmt.Sprintf("dbg_n_size_%d_kind_%s", gc.size, gc.kind)]++
+	}()
 
 	if i < 3 {
 		c.Sample(gc.describe())
